@@ -8,6 +8,21 @@ from kernpy.core import importer as _imp
 from kernpy.core import tokens as tk
 
 
+CALLS = {'n': 0}
+
+
+def used():
+    CALLS['n'] += 1
+
+
+def require_used():
+    """The obligation is only meaningful if kernpy actually went through the stub.  After a refactoring that by-passes the
+    patched name the path is discarded (the obligation then reports INCONCLUSIVE, never an alarm)."""
+    if CALLS['n'] == 0:
+        from crosshair.util import IgnoreAttempt
+        raise IgnoreAttempt('stub not reached')
+
+
 class StubSpineImporter:
     """import_token(text) returns a token built directly from kernpy's own token classes.
     Contract: encoding == cell text, category = the one the real importer of that spine type assigns
@@ -18,6 +33,7 @@ class StubSpineImporter:
         self.raise_on = raise_on          # predicate text -> bool: cells the 'parser' rejects
 
     def import_token(self, text):
+        used()
         if self.raise_on is not None and self.raise_on(text):
             raise Exception('stub parser: malformed token')
         return tk.SimpleToken(text, self.category)
@@ -27,6 +43,7 @@ class StubSpineImporter:
 def stub_importers(factory):
     """factory(header) -> importer object; installed in place of kernpy.core.importer.createImporter."""
     orig = _imp.createImporter
+    CALLS['n'] = 0
     _imp.createImporter = factory
     try:
         yield
